@@ -41,7 +41,13 @@ def keywords():
 def make_ident(rng, base, classes=None):
     """returns (spelled, bare)"""
     cls = rng.choice(classes or ["lower", "upper", "mixed", "dq", "bt", "br", "dq", "br", "kw_dq", "kw_bt", "kw_br", "space_dq", "underscore", "nested", "digit",
-                                 "special", "special_delim", "kwprefix", "kwprefix"])
+                                 "special", "special_delim", "kwprefix", "kwprefix", "long"])
+    if cls == "long":           # very long names (the lexer has no length limit)
+        name = base + "_" + "".join(rng.choice("abcxyz_019") for _ in range(rng.choice([64, 128, 300])))
+        if rng.random() < 0.5:
+            a, b = DELIMS[rng.choice(["dq", "bt", "br"])]
+            return a + name + b, name
+        return name, name
     if cls == "special":        # undelimited name containing # $ @ (allowed by the lexer's identifier class; never at the start: '#' opens a MySQL comment line)
         name = rng.choice([base + "#", "ord#" + base[-3:], base + "$", base[:2] + "@" + base[2:], base + "#1", base[:3] + "#" + base[3:] + "#"])
         return name, name
